@@ -80,6 +80,9 @@ impl<C: Config, Q: Query> Snapshot<C, Q> {
             });
         }
 
+        #[cfg(feature = "verif")]
+        qbice_storage::verif::yield_point("pre:bp:join").await;
+
         while let Some(res) = join_set.join_next().await {
             match res {
                 Ok(()) => {}
